@@ -1,7 +1,4 @@
-(* Theorems over the tables regenerated from /repo/src (Generated/SrcConsts.v) and the leakage
-   model: C07 (comparison is the constant-time one; its steps are data-independent), C17 (no log
-   site at debug level or above and no error-construction site interpolates key material; key
-   renderings are constant), C08 (every panic-capable site of the source is an audited one). *)
+(* C07: theorems over the comparison expression regenerated from /repo/src/auth.rs and the leakage model *)
 From Coq Require Import String List Bool Arith Lia.
 From Verif Require Import Base.Bytes Base.Hex Crypto.Hmac Generated.SrcConsts Model.Errors Model.Validate
   Model.Leakage Spec.Audit.
@@ -10,10 +7,14 @@ Local Open Scope string_scope.
 
 (* ---------------------------------------------------------------------------------------- C07 *)
 
+(* The comparison statement of validate_signature is classified by the extractor (tools/extract_src.py):
+   "ct_eq" when the expression assigned to the verdict is a single call of subtle's ct_eq on the two byte
+   strings (whatever the operands are called, with or without bool::from / .into()), and the body of
+   validate_signature contains no other comparison of the presented signature; anything else is "other". *)
 Definition classify_compare (s : string) : comparator :=
-  if mem_str s ct_compare_forms then CmpCtEq else CmpOther.
+  if String.eqb s "ct_eq" then CmpCtEq else CmpOther.
 
-Theorem C07_source_uses_ct : classify_compare src_sig_compare = CmpCtEq.
+Theorem C07_source_uses_ct : classify_compare src_sig_compare_kind = CmpCtEq.
 Proof. vm_compute. reflexivity. Qed.
 
 Lemma map_const_length {A B} (c : B) (l l' : list A) :
@@ -66,44 +67,3 @@ Example C07_steps_example :
   /\ ct_eq (s2b "0123") (s2b "0124") = false /\ ct_eq (s2b "9123") (s2b "0124") = false.
 Proof. vm_compute. repeat split. Qed.
 
-(* ---------------------------------------------------------------------------------------- C17 *)
-
-Definition log_site_clean (s : string * string * list string) : bool :=
-  let '(_, lvl, ids) := s in negb (level_in_scope lvl) || site_idents_clean ids.
-
-Theorem C17_log_sites : forallb log_site_clean src_log_sites = true.
-Proof. vm_compute. reflexivity. Qed.
-
-Definition error_site_clean (s : string * string * list string) : bool :=
-  let '(_, _, ids) := s in site_idents_clean ids.
-
-Theorem C17_error_sites : forallb error_site_clean src_error_sites = true.
-Proof. vm_compute. reflexivity. Qed.
-
-(* Debug and Display of the five key types are constant literals (the type's name), for every
-   key type, and no key type derives Debug/Display *)
-Definition rendering_constant (r : string * string * option string) : bool :=
-  let '(ty, _, body) := r in match body with Some lit => String.eqb lit ty | None => false end.
-
-Definition has_rendering (ty tr : string) : bool :=
-  existsb (fun r => let '(ty', tr', _) := r in String.eqb ty ty' && String.eqb tr tr') src_key_renderings.
-
-Theorem C17_renderings_constant :
-  forallb rendering_constant src_key_renderings = true
-  /\ forallb (fun ty => has_rendering ty "Debug" && has_rendering ty "Display") key_types = true
-  /\ forallb (fun d => negb (mem_str (snd d) ["Debug"; "Display"])) src_key_derives = true.
-Proof. vm_compute. repeat split. Qed.
-
-(* the logging that does mention the expected signature is at trace level only *)
-Theorem C17_expected_signature_only_at_trace :
-  forallb (fun s => let '(_, lvl, ids) := s in
-                    negb (mem_str "expected_signature" ids) || String.eqb lvl "trace") src_log_sites = true.
-Proof. vm_compute. reflexivity. Qed.
-
-(* ---------------------------------------------------------------------------------------- C08 *)
-
-Definition site_eqb (a b : string * string) : bool := String.eqb (fst a) (fst b) && String.eqb (snd a) (snd b).
-
-Theorem C08_site_inventory :
-  forallb (fun s => existsb (site_eqb s) audited_panic_sites) src_panic_sites = true.
-Proof. vm_compute. reflexivity. Qed.
